@@ -3,8 +3,9 @@
    after the fixes listed in the report), the reference terminal is model/VtSpec.v (written
    from the VT510 manual / xterm ctlseqs, independent of the Go code: lists of lists, firstn /
    skipn / repeat / app, Z.min / Z.max clamps, [dflt] for omitted or zero parameters), the
-   bridge (abstraction [abs], encoding [enc]) is model/TermAbs.v, proofs are in
-   proofs/TermRefine{,2,3,4,5}.v.
+   bridge (abstraction [abs], encoding [enc]) is model/TermAbs.v, the decidable statement of
+   the property on one observed history is model/VtCheck.v, proofs are in
+   proofs/TermRefine{,2,3,4,5,6}.v.
 
    - [vop]: printable narrow and wide glyphs, CR, LF, IND, RI, NEL, CUU CUD CUF CUB CNL CPL
      CHA HPA VPA HPR VPR CUP HVP, ED, EL, ECH, ICH, DCH, IL, DL, SU, SD, DECSTBM, DECSC, DECRC,
@@ -28,9 +29,20 @@
    sim_su, sim_sd, sim_decstbm, sim_decsc, sim_decrc, sim_alt_on, sim_alt_off, SGR,
    sim_link_osc), for all
    sizes from 2x2 up to 65535x65535 (the emulator clamps parameters to 16 bits as VTs do;
-   the clamp is invisible up to that size), for every prefix of every history. *)
+   the clamp is invisible up to that size), for every prefix of every history.
+
+   The differential run: [vt_holds_every] (model/VtCheck.v) is the statement of the property on
+   one observed history - after every prefix on which the reference terminal is defined, what
+   the observation shows of the implementation's state is the reference terminal's: on EVERY
+   observation the size, the cursor, the deferred-wrap flag and the scrolling region, on the
+   complete ones also grid, pen and saved cursors.  [C06_no_mismatch_no_violation]: a history on
+   which the implementation was observed to do what the model does satisfies it (so the
+   predicate cannot raise an alarm on code the model describes, and "no mismatch" implies "no
+   violation"); [C06_every_observation_stronger]: it implies the statement on the complete
+   observations alone ([vt_holds], the predicate used before). *)
 From Vx Require Import base.Prelude base.ListX model.Colour model.Sgr model.Term model.TermCheck
-  model.VtSpec model.TermAbs proofs.TermProofs proofs.TermRefine proofs.TermRefine5.
+  model.VtSpec model.TermAbs model.VtCheck proofs.TermProofs proofs.TermRefine proofs.TermRefine5
+  proofs.TermRefine6.
 
 Theorem C06_term_refines_vt : forall (w h : Z) (ops : list vop),
   2 <= w <= 65535 -> 2 <= h <= 65535 ->
@@ -64,6 +76,49 @@ Theorem C06_link : forall (t : term) (ps uri : text), no_semicolon ps = true ->
   update t (enc (Link ps uri)) = TOk (set_pen t (mkStyle (spen (t_pen t)) uri ps)).
 Proof. exact sim_link_osc. Qed.
 Print Assumptions C06_link.
+
+(* the decidable statement on observed histories: whenever the observations are the model's
+   (complete or light ones, in any mixture), the statement holds on every observation *)
+Theorem C06_no_mismatch_no_violation : forall c : vt_case,
+  vt_case_wf c = true -> hist_model_ok (vt_history c) = true -> vt_holds_every c = true.
+Proof. exact no_mismatch_no_violation. Qed.
+Print Assumptions C06_no_mismatch_no_violation.
+
+(* and it is at least as strong as the statement on the complete observations alone *)
+Theorem C06_every_observation_stronger : forall c : vt_case,
+  vt_holds_every c = true -> vt_holds c = true.
+Proof. exact holds_every_holds. Qed.
+Print Assumptions C06_every_observation_stronger.
+
+(* non-vacuity: the history "a", then CUU on a 2x2 screen with the model's own observations
+   (the first and the last complete, the middle one light) is well-formed, agrees with the
+   model and satisfies the statement; the same history with the cursor observed one line too
+   low after the CUU (a light observation) is rejected, while the statement on the complete
+   observations alone does not see it *)
+Definition C06_light_of (o : obs) : obs :=
+  mkObs (o_out o) (o_rows o) (o_cols o) (o_row o) (o_col o) (o_last o) (o_top o) (o_bot o)
+        (o_left o) (o_right o) (o_ev o) (o_plens o) (o_alens o) None.
+Definition C06_lower (o : obs) : obs :=
+  mkObs (o_out o) (o_rows o) (o_cols o) (o_row o + 1) (o_col o) (o_last o) (o_top o) (o_bot o)
+        (o_left o) (o_right o) (o_ev o) (o_plens o) (o_alens o) None.
+Definition C06_case (t0 t1 t3 : term) (o2 : obs) : vt_case :=
+  (2, 2, obs_of t0, [(Print [97] 1, enc (Print [97] 1), obs_of t1); (CUU Om, enc (CUU Om), o2);
+                     (LF, enc LF, obs_of t3)]).
+Example C06_example_check :
+  match term_start 2 2 with
+  | TOk t0 =>
+      match run_term t0 [Print [97] 1], run_term t0 [Print [97] 1; CUU Om], run_term t0 [Print [97] 1; CUU Om; LF] with
+      | TOk t1, TOk t2, TOk t3 =>
+          vt_case_wf (C06_case t0 t1 t3 (C06_light_of (obs_of t2))) = true /\
+          hist_model_ok (vt_history (C06_case t0 t1 t3 (C06_light_of (obs_of t2)))) = true /\
+          vt_holds_every (C06_case t0 t1 t3 (C06_light_of (obs_of t2))) = true /\
+          vt_holds_every (C06_case t0 t1 t3 (C06_lower (obs_of t2))) = false /\
+          vt_holds (C06_case t0 t1 t3 (C06_lower (obs_of t2))) = true
+      | _, _, _ => False
+      end
+  | _ => False
+  end.
+Proof. vm_compute. repeat split; reflexivity. Qed.
 
 (* non-vacuity: a target with ';', ':' and '=' ("a;v=2:b;c", params "id=x:k=v") is inside the
    vocabulary and the glyph printed under it carries the whole target on both sides *)
